@@ -51,7 +51,9 @@ Definition update_sensors (s : sspoc) (nreq : option nat) (treq : option nat) (x
         | Some k, _ => if d_width (f_data f) <? k then None else Some (Some k, threshold s, {| s_fit := f; s_req := RCount k |}, k)
         | None, Some t => Some (Some cnt, Some t, {| s_fit := f; s_req := RThr t |}, cnt)
         end in
-      match decided with
+      (* refit data of another width than the fitted weights are rejected before anything is decided (fix 63dea7e) *)
+      let xy_ok := match xy with Some d => Nat.eqb (d_width d) (d_width (f_data f)) | None => true end in
+      match (if xy_ok then decided else None) with
       | None => (s, Some ValueError)
       | Some (ns, th, st, count) =>
           let s1 := {| basis := basis s; refit_ := refit_ s; clf := clf s; n_sensors := ns; threshold := th; nbm := nbm s;
